@@ -205,7 +205,7 @@ func (e *exporter) value(n adt.Value, a ...adt.Conjunct) (result ast.Expr) {
 
 		if e.cfg.Simplify {
 			if name := adt.MatchBuiltinRange(x); name != "" {
-				return ast.NewIdent(name)
+				return ast.NewPredeclared(name)
 			}
 		}
 
@@ -329,8 +329,14 @@ func (e *exporter) bytes(n *adt.Bytes, orig []adt.Conjunct) *ast.BasicLit {
 }
 
 func (e *exporter) basicType(n *adt.BasicType) ast.Expr {
+	// The identifier must keep denoting the predeclared type even if the
+	// output has a regular field of the same name in scope (a field "string"
+	// is printed as the unquoted label string, which would capture a plain
+	// identifier). Marking it as predeclared lets astutil.Sanitize rewrite
+	// it to its "__"-prefixed form in that case, as is done for builtins.
+	// The same holds for the other predeclared names created in this package.
 	// TODO: allow multi-bit types?
-	return ast.NewIdent(n.K.String())
+	return ast.NewPredeclared(n.K.String())
 }
 
 func (e *exporter) boundValue(n *adt.BoundValue) ast.Expr {
